@@ -7,7 +7,7 @@ EXPLANATION = (
     "compared against a bound with an error exit; or a depth parameter passed as depth+1 and compared against a bound). The call graph of the "
     "parser minus the guarded functions must be acyclic. The step budget (ensure_budget) bounds work, not depth. The AST-walking cycles "
     "(planner, validators, evaluator) are bounded by AST depth and are listed as dependent. Panic-freedom, allocation failure and timeliness are not decided."
-    " The claim is a list of panic / abort classes, each decided structurally: C16.1 parser recursion cycles pass a depth guard; C16.2 no unwrap/expect on repository error types; C16.3 constant-offset str slices are dominated by an ASCII check of the same string; C16.4 no raw i64 arithmetic outside the evaluator; C16.5 Value::Int payloads are sign-tested before a cast to unsigned; C16.6 chrono's panicking TimeDelta constructors only get arguments bounded by construction (BITS); C16.7 no raw arithmetic on saturating_* results; C16.8 every parser loop that grows the expression tree iteratively passes the height guard; C16.9 plan-stacking parser loops are bounded by a constant budget (known finding). Signed arithmetic inside the temporal evaluator, computed slice indices and allocation sizes are not decided."
+    " The claim is a list of panic / abort classes, each decided structurally: C16.1 parser recursion cycles pass a depth guard; C16.2 no unwrap/expect on repository error types; C16.3 constant-offset str slices are dominated by an ASCII check of the same string; C16.4 no raw i64 arithmetic outside the evaluator; C16.5 Value::Int payloads are sign-tested before a cast to unsigned; C16.6 chrono's panicking TimeDelta constructors only get arguments bounded by construction (BITS); C16.7 no raw arithmetic on saturating_* results; C16.8 every parser loop that grows the expression tree iteratively passes the height guard; C16.9 plan-stacking parser loops are bounded by a constant budget (known finding); C16.11 signed division / remainder with a run-time divisor is done on operands widened from a narrower integer (i64::MIN / -1 and i64::MIN % -1 abort). Signed arithmetic inside the temporal evaluator, computed slice indices and allocation sizes are not decided."
     " C16.10: every computed index into a Vec / slice in the query crate (direct indexing and Index::index with a usize) is derived from, or dominated by a test against, the length of the very collection it indexes (views such as as_bytes are transparent); two sites with a reason each are named exceptions, and the parser-cursor invariant one of them relies on is itself checked."
 )
 
@@ -25,6 +25,7 @@ def run(ctx):
     ctx.rule("C16.8", "every parser loop that wraps the expression under construction into a new parent node (iterative tree growth: `1+1+1...`, `a.b.c...`, `n:A:B:C...`) passes the tree-height guard once per new level")
     ctx.rule("C16.9", "every parser loop that appends one more plan-stacking unit (clause, UNION branch, pattern, hop) per iteration is bounded by a constant budget — the plan is compiled and executed recursively, one level per unit")
     index_rule(ctx)
+    signed_division_rule(ctx)
     ctx.rule("C16.2", "no unwrap/expect on a Result carrying one of the repository's error types in product code (an error must be returned, not turned into a panic)")
     nodes = sorted(i for i in F.bodies if i.startswith(PARSER_PREFIX) and "::tests::" not in i)
     ctx.floor("C16.1", "parser bodies", len(nodes), 60)
@@ -613,3 +614,53 @@ def index_rule(ctx, rid="C16.10"):
                    "`peek` indexes beyond the token list", "%s:%d" % (adv.file, adv.line_of_block(bi)))
         guarded += 1 if ok else 0
     ctx.floor(rid, "cursor updates in TokenParser::advance", len(incs), 2)
+
+
+def signed_division_rule(ctx, rid="C16.11"):
+    """`i64::MIN / -1` and `i64::MIN % -1` abort: a signed division whose divisor is not a constant must run on widened operands"""
+    F = ctx.facts
+    ctx.rule(rid, "every signed `/` or `%` of the query crate whose divisor is a run-time value is computed on operands widened from a narrower integer "
+             "(`i128::from(i64)`), so MIN / -1 and MIN % -1 cannot overflow; divisions by a constant other than 0 / -1 need nothing")
+    n_const = n_dyn = 0
+    for i, b in sorted(F.bodies.items()):
+        if not i.startswith("nervusdb_query::"):
+            continue
+        k = 0
+        for bi, blk in enumerate(b.blocks):
+            t = blk["t"]
+            if t[0] != "assert" or b.is_cleanup(bi) or str(t[3]) not in ("overflow:Div", "overflow:Rem"):
+                continue
+            ops = t[4]
+            if len(ops) < 2:
+                continue
+            div = ops[1]
+            if div[0] == "k":
+                v = div[1].get("v")
+                n_const += 1
+                ctx.oblige(v not in (0, -1, None), rid, "%s:constant-divisor#%d" % (i, n_const),
+                           "%s divides by the constant %s" % (i, v), "%s:%d" % (b.file, b.line_of_block(bi)))
+                continue
+            n_dyn += 1
+            ok, why = True, []
+            for o in ops[:2]:
+                if o[0] not in ("c", "m"):
+                    continue
+                l = o[1][0]
+                ty = b.local_ty(l)
+                org = b.origin(l)
+                widened = False
+                if org and org[0] == "call" and org[1].name.endswith("::from") and "From<" in org[1].name and ty in org[1].name.split(" as ")[0]:
+                    widened = True
+                if org and org[0] == "rv" and org[1][0] == "cast" and org[1][1].startswith("IntToInt"):
+                    widened = True
+                why.append("%s %s" % (ty, "widened" if widened else "not widened (%s)" % (org[0] if org else "several definitions")))
+                ok = ok and widened and ty in ("i128",)
+            op = "%" if str(t[3]).endswith("Rem") else "/"
+            ctx.instance(rid, "%s: `%s` with a run-time divisor on [%s]" % (i.replace("nervusdb_query::", ""), op, ", ".join(why)))
+            ctx.oblige(ok, rid, "%s:signed-%s-runtime-divisor#%d" % (b.root or i, str(t[3]).split(":")[1], k),
+                       "%s computes a signed `%s` with a run-time divisor on [%s]: i64::MIN %s -1 overflows and aborts the query with a panic "
+                       "(e.g. RETURN -9223372036854775808 %s -1)" % (i, op, ", ".join(why), op, op), "%s:%d" % (b.file, b.line_of_block(bi)))
+            k += 1
+    ctx.instance(rid, "signed divisions by a constant: %d; by a run-time value: %d" % (n_const, n_dyn))
+    ctx.floor(rid, "signed divisions with a run-time divisor", n_dyn, 1)
+    ctx.floor(rid, "signed divisions by a constant", n_const, 20)
